@@ -6,6 +6,7 @@ import (
 	"go/constant"
 	"go/token"
 	"go/types"
+	"os"
 	"strings"
 
 	"golang.org/x/tools/go/packages"
@@ -437,6 +438,7 @@ func init() {
 // after it was decoded into the handler's type and — when a validator is configured — validated.
 func c11BatchAndParams(c *Ctx) {
 	c11BodyLimitConstant(c)
+	c11NullRequired(c)
 	c11UnknownNameRejected(c)
 	p := c.P
 	if f := p.Func("jsonrpc", "Server", "handleBatchRequest"); f != nil {
@@ -836,5 +838,78 @@ func c11BodyLimitConstant(c *Ctx) {
 	}
 	if n == 0 {
 		c.und("body-limit-constant", "jsonrpc", "", "no http.MaxBytesReader call found")
+	}
+}
+
+// c11NullRequired: (null-required) a JSON `null` given for a parameter decodes to a nil pointer when the handler takes the
+// parameter by pointer; handlers of *required* parameters dereference it (defect F29: `"params":[null]` for
+// starknet_getBlockTransactionCount panicked — no response for a single request, a missing entry in a batch). Necessary
+// condition decided here: every hand-over of a request-supplied value to parseParam in buildArguments (deep, through
+// same-package helpers) is reached only on paths that compared that very value with nil — the comparison may live in an
+// error-returning helper whose success condition is inlined. What the guard then does with Optional / the parameter kind is
+// read off the atoms: the disjunct must also mention the Optional flag (the only legitimate reason to let a null through).
+func c11NullRequired(c *Ctx) {
+	p := c.P
+	f := p.Func("jsonrpc", "Server", "buildArguments")
+	if f == nil {
+		c.und("null-required", "Server.buildArguments", "", "anchor not found")
+		return
+	}
+	n := 0
+	for _, ds := range p.deepSites(f, nameMatcher("parseParam"), 2) {
+		args := ds.Site.Args()
+		if len(args) == 0 {
+			continue
+		}
+		n++
+		// the request-supplied value: first non-receiver argument of interface type
+		var val ssa.Value
+		for _, a := range args {
+			if _, isIface := a.Type().Underlying().(*types.Interface); isIface {
+				val = a
+				break
+			}
+		}
+		construct := fmt.Sprintf("buildArguments → parseParam #%d", n)
+		if val == nil {
+			c.und("null-required", construct, p.Pos(ds.Site.Pos()), "request-supplied argument of parseParam not identified")
+			continue
+		}
+		vt := term(val)
+		d := p.mustHoldDeep(ds)
+		// per disjunct: the value was compared with nil; where it *is* nil the path must owe that to the Optional flag or to
+		// the handler's parameter kind (the only legitimate reasons to let a null through)
+		ok, miss := true, ""
+		okOpt, missOpt := true, ""
+		for _, cj := range d {
+			cmp, isNil := false, false
+			for _, a := range cj.list() {
+				if strings.Contains(a, vt) && strings.Contains(a, "== nil") && !strings.Contains(a, "(") || strings.Contains(a, "("+vt+" == nil)") {
+					cmp = true
+					if !strings.HasPrefix(a, "!") {
+						isNil = true
+					}
+				}
+			}
+			if !cmp {
+				ok, miss = false, strings.Join(cj.list(), " ∧ ")
+				break
+			}
+			if isNil && !cj.has("Optional") && !cj.has("reflect.Pointer") && !cj.has("reflect.Ptr") {
+				okOpt, missOpt = false, " [nil let through without consulting Optional or the parameter kind]"
+			}
+		}
+		if len(miss) > 400 {
+			miss = miss[:400] + "…"
+		}
+		if os.Getenv("DBG_C11") != "" {
+			fmt.Println("C11 null-required", p.Pos(ds.Site.Pos()), "val=", vt, "disjuncts=", len(d))
+		}
+		c.check(ok && okOpt, "null-required", construct, p.Pos(ds.Site.Pos()),
+			"the value handed to parseParam was compared with nil, together with the parameter's Optional flag, on every path to the call",
+			fmt.Sprintf("a request-supplied parameter value reaches parseParam on a path that never compared it with nil / never consulted Optional (path: %s%s): an explicit JSON null for a required pointer parameter decodes to a nil pointer that the handler dereferences — the request gets no response instead of -32602", miss, missOpt))
+	}
+	if n == 0 {
+		c.und("null-required", "buildArguments", p.Pos(fnPos(f)), "no parseParam hand-over found")
 	}
 }
